@@ -6,6 +6,7 @@ mod crammod;
 mod diffmod;
 mod escapemod;
 mod expectmod;
+mod genmod;
 mod mdmod;
 mod rulesmod;
 mod util;
@@ -19,6 +20,7 @@ fn main() {
         "diff-probe" => diffmod::probe(&args),
         "rules-replay" => rulesmod::replay(&args),
         "md-replay" => mdmod::replay(&args),
+        "gen-replay" => genmod::replay(&args),
         "escape-replay" => escapemod::replay(&args),
         "escape-sweep" => escapemod::sweep(&args),
         "expect-replay" => expectmod::replay(&args),
